@@ -11,11 +11,19 @@ Fixpoint first_match (holds : predT -> bool) (reg : list entry) : option entry :
   | e :: r => if forallb holds (e_tests e) then Some e else first_match holds r
   end.
 
-Lemma classify_first_match te d cc : forall reg,
-  classify_in te reg d cc = option_map (apply_entry te d) (first_match (pred_holds te d cc) reg).
+Lemma classify_reg_first_match te d cc : forall reg,
+  classify_reg te reg d cc = option_map (apply_entry te d) (first_match (pred_holds te d cc) reg).
 Proof.
   induction reg as [|e r IH]; simpl; [reflexivity|].
   destruct (forallb (pred_holds te d cc) (e_tests e)); [reflexivity | exact IH].
+Qed.
+
+(* a successful classification is a first match of the table *)
+Lemma classify_first_match te d cc reg s :
+  classify_in te reg d cc = Some s ->
+  option_map (apply_entry te d) (first_match (pred_holds te d cc) reg) = Some s.
+Proof.
+  unfold classify_in. rewrite <- classify_reg_first_match. destruct (d_shape d); try (intros H; exact H). discriminate.
 Qed.
 
 Lemma first_match_in holds : forall reg e, first_match holds reg = Some e ->
@@ -84,7 +92,7 @@ Theorem static_requires te d cc s :
   is_func_shape (d_shape d) = true /\ d_cacheable d = true /\ d_notCacheable d = false /\
   cc_inputsAreStatic cc = true /\ cc_isLast cc = false.
 Proof.
-  unfold characterizeFunc. rewrite classify_first_match.
+  unfold characterizeFunc. intros H0. apply classify_first_match in H0. revert H0.
   destruct (first_match (pred_holds te d cc) handlerRegistry) as [e|] eqn:Em; [|discriminate].
   simpl. intros H Hg. inversion H; subst s. simpl in Hg.
   destruct (first_match_in _ _ _ Em) as [Hin Hall].
@@ -105,7 +113,7 @@ Theorem must_cache_or_fail te d cc s :
   characterizeFunc te d cc = Some s -> d_mustCache d = true -> is_func_shape (d_shape d) = true ->
   s_group s = GStatic.
 Proof.
-  unfold characterizeFunc. rewrite classify_first_match.
+  unfold characterizeFunc. intros H0. apply classify_first_match in H0. revert H0.
   destruct (first_match (pred_holds te d cc) handlerRegistry) as [e|] eqn:Em; [|discriminate].
   simpl. intros H Hm Hf. inversion H; subst s. simpl.
   destruct (first_match_in _ _ _ Em) as [Hin Hall].
@@ -187,7 +195,7 @@ Theorem hoist_sufficient te d s :
   (negb (length (strip_unused te (typesOut (d_shape d))) =? 0) || memb (te_terminalT te) (typesOut (d_shape d))) = true ->
   characterizeFunc te d (mkCC false true) = Some s -> s_group s = GStatic.
 Proof.
-  intros (ins & outs & Hs & Hins & Houts) Hc Hn Hr Ho. unfold characterizeFunc. rewrite classify_first_match.
+  intros (ins & outs & Hs & Hins & Houts) Hc Hn Hr Ho. unfold characterizeFunc. intros H0. apply classify_first_match in H0. revert H0.
   assert (Hp : forall p, pred_holds te d (mkCC false true) p =
              holds_of false true true (d_mustCache d) (d_memoize d) (d_singleton d) false false
                       (negb (length (strip_unused te (typesOut (d_shape d))) =? 0))
